@@ -53,6 +53,7 @@ func (l *Lexer) NextToken() token.Token {
 }
 
 func (l *Lexer) nextInsideToken() token.Token {
+again:
 	var tok token.Token
 
 	l.skipWhitespace()
@@ -204,8 +205,9 @@ func (l *Lexer) nextInsideToken() token.Token {
 				break
 			}
 		}
-		// the comment is not a token: hand back whatever follows it
-		return l.nextInsideToken()
+		// the comment is not a token: hand back whatever follows it (a loop,
+		// not a recursive call: millions of comment lines must not exhaust the stack)
+		goto again
 	case '[':
 		tok = l.newToken(token.LBRACKET)
 	case ']':
